@@ -280,6 +280,17 @@ func schemaMatrix() []*schemaFile {
 			mkField(fieldSpec{name: "x", num: 4, kind: "sint32", oneof: -1}))
 		addMap(outer, "vh.mnested", "vh.mnested.Outer", "by_name", 5, "string", "message", ".vh.mnested.Outer")
 		f.MessageType = append(f.MessageType, outer)
+		// nested messages declared AFTER a map field: protoc places the synthetic entry
+		// message first in nested_type, so the generator meets a map entry before them
+		mapFirst := &descriptorpb.DescriptorProto{Name: sp("MapFirst")}
+		addMap(mapFirst, "vh.mnested", "vh.mnested.MapFirst", "counts", 1, "string", "int32", "")
+		tail := &descriptorpb.DescriptorProto{Name: sp("Tail"), Field: []*descriptorpb.FieldDescriptorProto{mkField(fieldSpec{name: "t", num: 1, kind: "int64", oneof: -1})}}
+		tail2 := &descriptorpb.DescriptorProto{Name: sp("Tail2"), Field: []*descriptorpb.FieldDescriptorProto{mkField(fieldSpec{name: "u", num: 1, kind: "string", oneof: -1})}}
+		mapFirst.NestedType = append(mapFirst.NestedType, tail, tail2)
+		mapFirst.Field = append(mapFirst.Field,
+			mkField(fieldSpec{name: "tail", num: 2, kind: "message", typeName: ".vh.mnested.MapFirst.Tail", oneof: -1}),
+			mkField(fieldSpec{name: "tails", num: 3, kind: "message", typeName: ".vh.mnested.MapFirst.Tail2", repeated: true, oneof: -1}))
+		f.MessageType = append(f.MessageType, mapFirst)
 		add("mnested", f)
 	}
 	// 9. field names colliding with protoreflect.Message methods, with methods of the
